@@ -241,9 +241,12 @@ class SED(object):
         sed.wav = wav.to(unit_wav)
         sed.nu = nu.to(unit_freq)
 
-        # Set fluxes
-        sed.flux = convert_flux(nu, flux, unit_flux, distance=sed.distance)
-        sed.error = convert_flux(nu, error, unit_flux, distance=sed.distance)
+        # Set fluxes (the conversion is done in double precision: for files
+        # stored in single precision, intermediate values such as F / nu can
+        # fall outside the single-precision range when F itself does not)
+        nu = nu.astype(float)
+        sed.flux = convert_flux(nu, flux.astype(float), unit_flux, distance=sed.distance)
+        sed.error = convert_flux(nu, error.astype(float), unit_flux, distance=sed.distance)
 
         # Sort SED
 
